@@ -520,6 +520,23 @@ type dBad struct {
 
 func (d *dBad) InitDefaults() { d.A = 0 }
 
+// map types that provide their defaults through InitDefaults
+type dLimit struct {
+	Max int `config:"max" validate:"min=1"`
+}
+
+type dLimits map[string]dLimit
+
+func (l dLimits) InitDefaults() { l["default"] = dLimit{} } // max=0 violates min=1
+
+type dWeights map[string]vInt
+
+func (w *dWeights) InitDefaults() { (*w)["fallback"] = 13 } // rejected by vInt.Validate
+
+type dGoodLimits map[string]dLimit
+
+func (l dGoodLimits) InitDefaults() { l["default"] = dLimit{Max: 4} }
+
 type c04CatCase struct {
 	Name    string
 	Target  func() interface{}
@@ -544,6 +561,9 @@ func c04Catalogue() *core.Space {
 	type D2 struct{ X dBad }
 	type D3 struct{ X *dBad }
 	type D4 struct{ L []dBad }
+	type D5 struct{ Limits dLimits }
+	type D6 struct{ Weights dWeights }
+	type D7 struct{ Limits dGoodLimits }
 	cases := []c04CatCase{
 		{"vInt ok", func() interface{} { return &W1{} }, M{"x": 1}, false},
 		{"vInt rejected from config", func() interface{} { return &W1{} }, M{"x": 13}, true},
@@ -580,6 +600,13 @@ func c04Catalogue() *core.Space {
 		{"InitDefaults behind nil pointer, not in config: not created", func() interface{} { return &D3{} }, M{"y": 1}, false},
 		{"InitDefaults behind pointer, object in config: invalid default rejected", func() interface{} { return &D3{} }, M{"x": M{"b": 1}}, true},
 		{"InitDefaults in slice elements is not supported: zero element violates min=1", func() interface{} { return &D4{} }, M{"l": L{M{"b": 1}}}, true},
+		{"map InitDefaults adds an invalid struct entry, config sets another key", func() interface{} { return &D5{} }, M{"limits": M{"custom": M{"max": 5}}}, true},
+		{"map InitDefaults adds an invalid struct entry, pre-allocated map", func() interface{} { return &D5{Limits: dLimits{}} }, M{"limits": M{"custom": M{"max": 5}}}, true},
+		{"map InitDefaults invalid entry replaced by a valid setting", func() interface{} { return &D5{} }, M{"limits": M{"default": M{"max": 2}}}, false},
+		{"map InitDefaults adds an entry its Validate rejects, pre-allocated map", func() interface{} { return &D6{Weights: dWeights{}} }, M{"weights": M{"a": 3}}, true},
+		{"map InitDefaults invalid Validate entry replaced by a valid setting", func() interface{} { return &D6{Weights: dWeights{}} }, M{"weights": M{"fallback": 3}}, false},
+		{"map InitDefaults adds a valid entry", func() interface{} { return &D7{} }, M{"limits": M{"custom": M{"max": 5}}}, false},
+		{"top-level map with InitDefaults adding an invalid entry", func() interface{} { m := dLimits{}; return &m }, M{"custom": M{"max": 5}}, true},
 	}
 	return &core.Space{
 		Name:   "validate-and-initdefaults-catalogue",
@@ -617,11 +644,78 @@ func c04Catalogue() *core.Space {
 	}
 }
 
+// c04TagSequences: the ValidatorTag option selects which struct tag holds the validators. Every case
+// unpacks the same configuration twice into (fresh values of) one struct type whose field carries two
+// different validator lists under the tags `validate` and `strict`, once per tag name, in both orders;
+// the type is unique to the case (a marker field), so nothing a case leaves behind in the process can
+// influence another case.
+func c04TagSequences() *core.Space {
+	vals := []int{-1, 0, 2, 5}
+	orders := [][2]string{{"validate", "strict"}, {"strict", "validate"}, {"validate", "validate"}, {"strict", "strict"}}
+	radices := []int{len(numTags), len(numTags), len(vals), len(orders), 2}
+	return &core.Space{
+		Name: "validator-tag-option-sequences",
+		Size: product(radices...),
+		Text: func(i int) string {
+			d := mixedRadix(i, radices...)
+			return fmt.Sprintf("field F int `validate:%q strict:%q` (%s), config f: %d, Unpack with ValidatorTag(%q) then ValidatorTag(%q)", numTags[d[0]], numTags[d[1]], []string{"top level", "in a slice element"}[d[4]], vals[d[2]], orders[d[3]][0], orders[d[3]][1])
+		},
+		Exec: func(i int) core.Result {
+			d := mixedRadix(i, radices...)
+			tags := map[string]string{"validate": numTags[d[0]], "strict": numTags[d[1]]}
+			var res core.Result
+			pi := core.Guard(func() {
+				inner := reflect.StructOf([]reflect.StructField{
+					{Name: "F", Type: reflect.TypeOf(0), Tag: reflect.StructTag(fmt.Sprintf(`validate:"%s" strict:"%s"`, tags["validate"], tags["strict"]))},
+					{Name: fmt.Sprintf("Marker%d", i), Type: reflect.TypeOf(0)},
+				})
+				outerT := inner
+				cfgMap := M{"f": vals[d[2]]}
+				if d[4] == 1 {
+					outerT = st(sf("L", reflect.SliceOf(inner), ""))
+					cfgMap = M{"l": L{M{"f": vals[d[2]]}}}
+				}
+				cfg, err := ucfg.NewFrom(cfgMap)
+				if err != nil {
+					res = core.Fail("tagseq", "BUILD", err.Error())
+					return
+				}
+				for step, tagName := range orders[d[3]] {
+					target := reflect.New(outerT)
+					uerr := cfg.Unpack(target.Interface(), ucfg.ValidatorTag(tagName))
+					predicted, which := valid.TagViolated(tags[tagName], reflect.ValueOf(vals[d[2]]))
+					sig := fmt.Sprintf("VALIDATOR-TAG-OPTION step%d", step+1)
+					if uerr == nil && predicted {
+						res = core.Fail("tagseq", sig+" violation-not-reported", fmt.Sprintf("call %d with ValidatorTag(%q): F=%d violates %q, Unpack returned nil", step+1, tagName, vals[d[2]], which))
+						return
+					}
+					if uerr != nil && !predicted {
+						res = core.Fail("tagseq", sig+" valid-value-rejected", fmt.Sprintf("call %d with ValidatorTag(%q): F=%d satisfies %q, Unpack returned %s", step+1, tagName, vals[d[2]], tags[tagName], firstLine(uerr.Error())))
+						return
+					}
+					if uerr == nil {
+						if v := valid.Check(target.Elem(), tagName); v != nil {
+							res = core.Fail("tagseq", sig+" invalid-result-accepted", fmt.Sprintf("call %d with ValidatorTag(%q): %s", step+1, tagName, v))
+							return
+						}
+					}
+				}
+				res.Nontrivial = tags["validate"] != tags["strict"]
+				res.Outcome = "ok"
+			})
+			if pi != nil {
+				return apiPanic("tagseq", pi)
+			}
+			return res
+		},
+	}
+}
+
 func init() {
 	core.Register(&core.Check{
 		ID:    "C04",
 		Level: "exploration",
-		Rule:  "target types generated with reflect.StructOf: a validated field F of 10 kinds (int, uint8, float64, string, time.Duration, []int, map[string]int, *int, *string, *regexp.Regexp) x every applicable validate tag (required, nonzero, positive, min, max, min+max, duration bounds with and without unit) placed in 12 (quick) / 14 (thorough) contexts (top level, nested struct, *struct, slice/array element, map value by value and by pointer, inline struct, struct inside inline struct, inline struct inside a slice element, slice elements under the append and prepend policies, two-level nestings) x configuration for F (location absent, f absent, nil, each menu value, each menu value through ${ref}) x pre-filled default (none, each menu value incl. nil pointers/collections); plus a hand-written catalogue of Validate()/InitDefaults() types. Oracle: success => the independent validator walker accepts the result; predicted violation => error naming the field; non-trivial = a validator is declared and F exists in the result",
+		Rule:  "target types generated with reflect.StructOf: a validated field F of 10 kinds (int, uint8, float64, string, time.Duration, []int, map[string]int, *int, *string, *regexp.Regexp) x every applicable validate tag (required, nonzero, positive, min, max, min+max, duration bounds with and without unit) placed in 12 (quick) / 14 (thorough) contexts (top level, nested struct, *struct, slice/array element, map value by value and by pointer, inline struct, struct inside inline struct, inline struct inside a slice element, slice elements under the append and prepend policies, two-level nestings) x configuration for F (location absent, f absent, nil, each menu value, each menu value through ${ref}) x pre-filled default (none, each menu value incl. nil pointers/collections); plus a hand-written catalogue of Validate()/InitDefaults() types (struct and map types providing defaults), plus sequences of two Unpack calls into one struct type selecting the validators with ValidatorTag (two tags x 7x7 validator lists x 4 values x 4 call orders x 2 placements, a type unique to each case). Oracle: success => the independent validator walker accepts the result; predicted violation => error naming the field; non-trivial = a validator is declared and F exists in the result",
 		Assumptions: []string{
 			"validator semantics from the doc comment on Unpack, applied to the final value after following non-nil pointers; a nil pointer satisfies everything except required",
 			"the error must contain the quoted dotted path of F when the offending value came from the configuration, and F's path or an enclosing setting's when it came from a default",
@@ -629,9 +723,9 @@ func init() {
 		Spaces: func(tier string) []*core.Space {
 			quick := []c04Ctx{ctxTop, ctxNested, ctxPtrStruct, ctxSliceElem, ctxArrayElem, ctxMapVal, ctxMapPtrVal, ctxInline, ctxInlineNested, ctxInlineInSlice, ctxSliceAppend, ctxSlicePrepend}
 			if tier == "thorough" {
-				return []*core.Space{c04Catalogue(), c04Space("generated-types", append(quick, ctxNestedInSlice, ctxMapOfSlices))}
+				return []*core.Space{c04Catalogue(), c04TagSequences(), c04Space("generated-types", append(quick, ctxNestedInSlice, ctxMapOfSlices))}
 			}
-			return []*core.Space{c04Catalogue(), c04Space("generated-types", quick)}
+			return []*core.Space{c04Catalogue(), c04TagSequences(), c04Space("generated-types", quick)}
 		},
 	})
 }
